@@ -29,6 +29,12 @@ type GhostUpdate struct {
 	Src string
 }
 
+// Capture binds a ghost name to the value of an argument (0-based, receiver included) or of the
+// result ("result", "result[i]") of the first call of Callee executed on the path.
+type Capture struct {
+	Name, Callee, What string
+}
+
 type GhostVar struct {
 	Name, Sort string
 	Init       *Sx
@@ -45,6 +51,7 @@ type Contract struct {
 	LetOrder []string
 	Requires []Clause
 	Panics   []Clause // panicsunless: the call panics unless the condition holds
+	Captures []Capture // capture: ghost names bound to an argument/result of a call made by the function
 	OrmPost  []Clause // assume-orm: instances of the ORM representation invariant (wf ...) assumed at every return
 	Ensures  []Clause
 	Modifies []string
@@ -263,6 +270,15 @@ func (sp *Spec) LoadContractFile(path, defaultPkg string) error {
 			}
 			parts := strings.SplitN(rest, " ", 2)
 			c.Ghosts = append(c.Ghosts, GhostParam{parts[0], strings.TrimSpace(parts[1])})
+		case "capture":
+			if err := need(); err != nil {
+				return err
+			}
+			parts := strings.Fields(rest)
+			if len(parts) != 3 {
+				return fmt.Errorf("%s: bad capture %q (want: capture <name> <callee> <arg index|result>)", path, d)
+			}
+			c.Captures = append(c.Captures, Capture{parts[0], qualifyFunc(parts[1], imports, defaultPkg), parts[2]})
 		case "ghostvar":
 			if err := need(); err != nil {
 				return err
